@@ -259,6 +259,31 @@ func runC16(c *core.Ctx) error {
 		return err
 	}
 	panicob.Discharge(c, r5, sites, panicob.Options{Table: table})
+
+	// ---- R16.6: the packages that call Resolve
+	r6 := c.NewRule("R16.6", "S1", "callers of jsonpointer.Resolve do not memoise resolved nodes under a lossy function of the pointer text", 1)
+	if cprog, err := c.Program("./jsonschema", "./openapi/parser", "./jsonpointer"); err != nil {
+		r6.Undecided("load:callers", "-", err.Error())
+	} else {
+		checkMemoKeyIsArgument(c, r6, cprog, pkgJS, pkgParser, pkgJP)
+		nCalls := 0
+		for _, pp := range []string{pkgJS, pkgParser} {
+			for _, top := range core.PkgFuncs(cprog.SSA, cprog.ByPath[pp]) {
+				for _, fn := range core.AllFuncs(top) {
+					for _, call := range core.Calls(fn) {
+						if core.IsCallTo(call.Common(), pkgJP, "Resolve") {
+							nCalls++
+						}
+					}
+				}
+			}
+		}
+		if nCalls == 0 {
+			r6.Undecided("anchor:Resolve-callers", "-", "no call of jsonpointer.Resolve found in jsonschema / openapi/parser")
+		} else {
+			r6.Pass(fmt.Sprintf("%d call sites of jsonpointer.Resolve in jsonschema and openapi/parser", nCalls))
+		}
+	}
 	return nil
 }
 
